@@ -158,6 +158,8 @@ def d3(chk, prog):
             ev.append(("read", fname, fmt))
             return make_ga("GenomicArray", [dict(chromosome="chr1", start=1, end=2)], {"filename": fname}, exact=True)
         model.prims["skgenome.tabio.read"] = read
+        # (format sniffing tries the interval-list pattern first: a BED line whose 4th column is a strand-like placeholder is then read 1-based)
+        model.prims["skgenome.tabio.read_auto"] = lambda it, fname, *a, **k: read(it, fname, "auto-detected")
 
         def subtract(it, obj, other, ev=ev):
             # the whole exclude table, as read: a one-base region (far narrower than the minimum gap) must still be cut out
@@ -177,8 +179,8 @@ def d3(chk, prog):
         want_kinds = ["scan", "table"] + [k for _ in excludes for k in ("read", "subtract")] + ["join", "table"]
         first_table = next(x for x in ev if x[0] == "table")[1]
         ok = kinds == want_kinds and first_table == (canonical if skip else contigs) and [x[1] for x in ev if x[0] == "subtract"] == list(excludes) \
-            and [x for x in ev if x[0] == "join"] == [("join", 7777)] and all(x[2] == "bed3" for x in ev if x[0] == "read")
-        tb.cell(ok, dict(skip_noncanonical=skip, excludes=list(excludes), stages=kinds, contigs_after_filter=first_table))
+            and [x for x in ev if x[0] == "join"] == [("join", 7777)] and all(x[2] in ("bed3", "bed") for x in ev if x[0] == "read")
+        tb.cell(ok, dict(skip_noncanonical=skip, excludes=list(excludes), stages=kinds, read_as=[x[2] for x in ev if x[0] == "read"], contigs_after_filter=first_table))
     tb.done("access does not run scan -> contig filter (iff asked) -> exclude -> join, or filters the wrong contigs")
 
 
@@ -219,6 +221,44 @@ def d4(chk, prog):
     chk.floor("yields in get_regions", len(emits), 5)
 
 
+def d5(chk, prog):
+    chk.clause("D5", "the `access` command line: every -x / --exclude file given, in order, and -s reach do_access")
+    from .. import argmodel
+    fi = prog.fn("cnvlib.commands._cmd_access")
+    ps = argmodel.parser_of(prog, "_cmd_access")
+    tb = Table(chk, "access-stages", "_cmd_access on the namespace argparse builds: 0 / 1 / 2 / 3 exclude options, -s given or not", fi.loc(), fi.qn)
+    fd = prog.fn(f"{ACC}.do_access")
+    names = [x.arg for x in fd.node.args.args]
+    defaults = dict(zip(names[len(names) - len(fd.node.args.defaults):], [ast.literal_eval(d) for d in fd.node.args.defaults]))
+    for excl, gap in itertools.product([(), ("a.bed",), ("a.bed", "b.bed"), ("c.bed", "a.bed", "b.bed")], [None, 3000]):
+        argv = ["genome.fa"]
+        for j, e in enumerate(excl):
+            argv += ["--exclude" if j == 1 else "-x", e]
+        if gap is not None:
+            argv += ["-s", str(gap)]
+        model = Model()
+        model.attr_hooks.append(argmodel.ns_hook)
+        seen = {}
+
+        def do_access(it, *a, seen=seen, **k):
+            b = dict(defaults)
+            b.update(zip(names, a))
+            b.update(k)
+            seen["call"] = b
+            return "ACCESS"
+        model.prims[f"{ACC}.do_access"] = do_access
+        model.prims["skgenome.tabio.write"] = lambda it, *a, seen=seen, **k: seen.setdefault("written", a)
+        it = Interp(prog, model)
+        out = tb.guard(lambda: ("done", it.run(fi.qn, [argmodel.parse(ps, argv)])), " ".join(argv))
+        if out is None:
+            continue
+        b = seen.get("call") or {}
+        ok = list(b.get("exclude_fnames") or ()) == list(excl) and b.get("fa_fname") == "genome.fa" and b.get("min_gap_size") == (gap if gap is not None else ps.opt("min_gap_size").default) \
+            and b.get("min_gap_size") is not None and (seen.get("written") or [None])[0] == "ACCESS"
+        tb.cell(ok, dict(command_line=" ".join(argv), do_access={k: repr(v) for k, v in b.items()}))
+    tb.done("an exclude file named on the command line does not reach do_access (its regions stay in the output), or the gap size does not")
+
+
 def run(chk):
     prog = chk.prog
     chk.trust("Python grammar via ast", "re: the module-level contig patterns are matched by the real `re` engine on constant strings", "merge() returns a sorted, disjoint table (C06-D3)")
@@ -231,6 +271,7 @@ def run(chk):
     d2(chk, prog)
     d2b(chk, prog)
     d3(chk, prog)
+    d5(chk, prog)
     d4(chk, prog)
 
 
